@@ -188,6 +188,16 @@ fn expected_of(n: &Node, path: &mut Vec<String>, tree: &DElem, nil: bool, out: &
 
 /// parse + extend + render through the library; `None` if the library rejects a document
 pub fn make_program(docs: Vec<Doc>, theme: &str, opt: &OptRec) -> Option<Program> {
+    // the library is called here outside the batch evaluator: give up the run if it does not return (C07)
+    let (d2, t2, o2) = (docs.clone(), theme.to_string(), opt.clone());
+    crate::run::with_deadline(
+        "a call into the library did not return (endless loop or unbounded recursion) while a program was prepared",
+        move || serde_json::json!({"kind": "program", "documents": docs.iter().map(|d| d.to_xml()).collect::<Vec<_>>(), "extra_documents": []}),
+        move || make_program_inner(d2, &t2, &o2),
+    )
+}
+
+fn make_program_inner(docs: Vec<Doc>, theme: &str, opt: &OptRec) -> Option<Program> {
     let mut tree = None;
     for d in &docs {
         let di = DocInput::from_dom(d.clone());
@@ -449,7 +459,18 @@ fn vnode_tokens(n: &Node, out: &mut String) {
 /// program made of it per variant
 pub fn e_line(id: &str, prop: &str, p: &Program, r: &ProgResult, sxr: bool) -> String {
     // documents that refer to entities of their own DTD are outside the deserializer model (the values are unknown)
-    let all: Vec<(usize, &Doc)> = p.docs.iter().chain(p.extra_docs.iter()).enumerate().filter(|(_, d)| !crate::dom::has_entity_markers(&d.root)).collect();
+    // … and so are, for serde-xml-rs, documents whose declaration names an encoding xml-rs does not know (K7): the
+    // model sees the root element only
+    let odd_label = |d: &Doc| -> bool {
+        sxr && d.prolog.iter().any(|i| match i {
+            Item::Decl(t) => {
+                let l = t.to_ascii_lowercase();
+                l.contains("encoding") && !["utf-8", "utf8", "utf-16", "utf16", "iso-8859-1", "latin1", "us-ascii", "ascii"].iter().any(|e| l.contains(&format!("'{}'", e)) || l.contains(&format!("\"{}\"", e)))
+            }
+            _ => false,
+        })
+    };
+    let all: Vec<(usize, &Doc)> = p.docs.iter().chain(p.extra_docs.iter()).enumerate().filter(|(_, d)| !crate::dom::has_entity_markers(&d.root) && !odd_label(d)).collect();
     let mut s = format!("E {} {} {} PROG {} K{}", id, prop, sxr as u8, enc(&p.text), all.len());
     for (j, d) in all.iter().map(|(j, d)| (*j, *d)) {
         s.push(' ');
